@@ -13,6 +13,7 @@ import argparse, concurrent.futures as cf, hashlib, json, os, re, resource, shut
 
 ROOT = os.path.dirname(os.path.abspath(__file__))
 REPO = os.environ.get('VERIF_REPO', '/repo')
+TAG = os.environ.get('VERIF_TAG', '')   # seeded-change runs: separate build/evidence directories, /repo untouched
 sys.path.insert(0, os.path.join(ROOT, 'tools'))
 import ll2c  # noqa: E402
 import threading
@@ -315,7 +316,7 @@ def known_match(known, prop, job, desc, replay_out):
 
 
 def do_job(prop, job, tier, seed, keep):
-    wd = os.path.join(ROOT, 'build', prop, job['name'])
+    wd = os.path.join(ROOT, 'build', TAG + prop, job['name'])
     shutil.rmtree(wd, ignore_errors=True)
     r = {'job': job['name'], 'defs': job['defs'], 'unit': job['unit'], 'harness': job['harness'], 'bounds': job.get('bounds', ''),
          'status': 'PASS', 'violations': [], 'notes': []}
@@ -327,7 +328,7 @@ def do_job(prop, job, tier, seed, keep):
             # a violation observed directly on the real build during the differential run
             m = re.match(r'.*in=\[([^\]]*)\]', v)
             vals = [int(x) for x in m.group(1).split(',')] if m and m.group(1) else []
-            path = os.path.join(ROOT, 'replays', '%s-%s-diff-%s.txt' % (prop, job['name'], hashlib.sha1(str(vals).encode()).hexdigest()[:10]))
+            path = os.path.join(ROOT, 'replays', TAG, '%s-%s-diff-%s.txt' % (prop, job['name'], hashlib.sha1(str(vals).encode()).hexdigest()[:10]))
             bad, rc, out = replay(wd, vals, path)
             if bad: r['violations'].append({'source': 'differential run (random input, real build)', 'desc': v[-200:], 'replay': path, 'replay_out': out[-600:]})
         c = run_cbmc(job, wd, tier, r['differential'].pop('_inputs', [])); r['cbmc'] = c
@@ -346,7 +347,7 @@ def do_job(prop, job, tier, seed, keep):
             if cls not in ('PROP', 'SAFETY'): continue
             vals = c['traces'].get(nm)
             if vals is None: unrep.append((nm, desc, 'no trace')); continue
-            path = os.path.join(ROOT, 'replays', '%s-%s-%s.txt' % (prop, job['name'], hashlib.sha1((nm + str(vals)).encode()).hexdigest()[:10]))
+            path = os.path.join(ROOT, 'replays', TAG, '%s-%s-%s.txt' % (prop, job['name'], hashlib.sha1((nm + str(vals)).encode()).hexdigest()[:10]))
             bad, rc, out = replay(wd, vals, path)
             if bad: r['violations'].append({'source': 'cbmc counterexample', 'cbmc_property': nm, 'class': cls, 'desc': desc, 'inputs': vals, 'replay': path, 'replay_out': out[-600:]})
             else: unrep.append((nm, desc, 'inputs %s do not reproduce on the real build: %s' % (vals, out.strip()[-200:])))
@@ -436,8 +437,9 @@ def main():
         'assumptions': STUBS + PROPS[prop].get('assumptions', []),
         'wall_s': round(time.time() - t0, 1), 'violations': nviol,
     }
-    os.makedirs(os.path.join(ROOT, 'evidence'), exist_ok=True)
-    json.dump(ev, open(os.path.join(ROOT, 'evidence', prop + '.json'), 'w'), indent=1)
+    evdir = os.path.join(ROOT, 'evidence') if not TAG else os.path.join(ROOT, 'build', TAG + 'evidence')
+    os.makedirs(evdir, exist_ok=True)
+    json.dump(ev, open(os.path.join(evdir, prop + '.json'), 'w'), indent=1)
     for l in kf_lines: print(l)
     for l in lines: print(l)
     for r in inconcl: print('INCONCLUSIVE property=%s job=%s reason=%s' % (prop, r['job'], r.get('reason', '')[:500]))
